@@ -137,7 +137,33 @@ pub fn generate(scope: &str, name: &str, seed: u64, k: u64, rng: &mut Rng, tier:
                 0 => Profile::maint_heavy(),
                 _ => Profile::small(),
             };
-            let inst = gen_instance(rng, &p);
+            let mut inst = gen_instance(rng, &p);
+            // two small depots at different locations that are exactly equally far from every other
+            // location (a tie): the depot choice inside a swap is then driven by capacity alone, and a
+            // switch keeps the tour distance while the legs to the neighbours in the rotation change
+            if inst.nlocs >= 3 && rng.chance(60) {
+                let ntypes = inst.vtypes.len();
+                let a = rng.below(inst.nlocs as u64) as usize;
+                let b = (a + 1 + rng.below(inst.nlocs as u64 - 1) as usize) % inst.nlocs;
+                for c in 0..inst.nlocs {
+                    if c != a && c != b {
+                        inst.dh_dist[b][c] = inst.dh_dist[a][c];
+                        inst.dh_dur[b][c] = inst.dh_dur[a][c];
+                    }
+                }
+                let mut ds = inst.depots.take().unwrap_or_default();
+                for pos in [a, b] {
+                    ds.push(crate::inst::InDepot {
+                        loc: inst.dh_idx[pos],
+                        capacity: 1,
+                        allowed: (0..ntypes).map(|t| (t, None)).collect(),
+                    });
+                }
+                inst.depots = Some(ds);
+                if rng.chance(50) {
+                    inst.max_dist = 1_000_000;
+                }
+            }
             match load_or_report(inst) {
                 Err(s) => head + &s,
                 Ok(ctx) => head + &ctx.inst.to_text() + &swaps::generate(&ctx, rng, tier),
